@@ -14,6 +14,14 @@ class Boom(Exception):
     pass
 
 
+class BoomBase(BaseException):
+    """A user-defined exception outside the Exception hierarchy (like KeyboardInterrupt, SystemExit, CancelledError)."""
+
+
+# "every exit path": what leaves the body rotates over the program index
+EXIT_KINDS = [Boom, KeyboardInterrupt, BoomBase, SystemExit, Boom, GeneratorExit]
+
+
 class FakePool:
     def __init__(self, k, log):
         self.k, self.log = k, log
@@ -76,7 +84,7 @@ def run(ctx):
     from aspire import Aspire
     common.standard_prove(ctx, gen_targets=[])
     ctx.rule = ("programs over {enable_pool(pool|None, close_pool, parallelize_prior), auto_checkpoint(path, every, save_config, "
-                "save_flow), an exception raised in the body, sample_posterior inside the body}: exhaustive nestings to depth 2 (quick) / 3 "
+                "save_flow), the body left by an exception (rotating over Exception, KeyboardInterrupt, SystemExit, GeneratorExit and a user BaseException subclass), sample_posterior inside the body}: exhaustive nestings to depth 2 (quick) / 3 "
                 "(thorough) with every leaf, plus random programs to depth 5 from random.Random(VERIF_SEED); each program is executed on a "
                 "real Aspire instance with fake pools; afterwards log_likelihood / log_prior must be the original objects, "
                 "_checkpoint_defaults the original object with its original contents (or absent), pools closed exactly when asked; the "
@@ -115,6 +123,7 @@ def run(ctx):
             # "on entry" means when the context is ENTERED, not when its object was made: in a third of the programs every context
             # object is built up front (ExitStack style) and entered later, possibly inside other contexts
             prebuilt_mode = (pi % 3 == 1)
+            exc_kind = EXIT_KINDS[(pi // 2) % len(EXIT_KINDS)]
             level_bad = []
 
             def make_cm(p):
@@ -140,7 +149,7 @@ def run(ctx):
                 if k == "skip":
                     return
                 if k == "raise":
-                    raise Boom()
+                    raise exc_kind()
                 if k == "sample":
                     out_ = a.sample_posterior(3, sampler="importance")
                     # inside any nesting of contexts (pool-mapped callables included) the values stored with the returned points are
@@ -170,16 +179,17 @@ def run(ctx):
             err = None
             try:
                 execp(prog)
-            except Boom:
-                outcome = "Exn"
-            except Exception as e:
-                outcome = "Other"
-                err = repr(e)
+            except BaseException as e:
+                if type(e) is exc_kind:
+                    outcome = "Exn"
+                else:
+                    outcome = "Other"
+                    err = repr(e)
             nrun += 1
             ctx.count(repr(prog), prog[0] in ("pool", "auto"), kind=prog[0])
-            case = {"program": to_coq(prog), "preset_defaults": preset, "context_objects_built_up_front": prebuilt_mode}
+            case = {"program": to_coq(prog), "preset_defaults": preset, "context_objects_built_up_front": prebuilt_mode, "raised_in_body": exc_kind.__name__}
             if level_bad:
-                ctx.violation("level-not-restored" + (":prebuilt" if prebuilt_mode else ""),
+                ctx.violation("level-not-restored" + (":prebuilt" if prebuilt_mode else "") + ("" if issubclass(exc_kind, Exception) else ":base-exception"),
                               f"leaving {level_bad[0][0]}: (log_likelihood, log_prior, defaults) identical to their values on entry: {level_bad[0][1]}", case)
             if len(ctx.samples) < 3 and prog[0] in ("pool", "auto") and "Raise" in to_coq(prog):
                 ctx.sample(dict(case, outcome=outcome))
